@@ -65,7 +65,7 @@ Lemma lstep_frame c c' : lstep c = Some c' ->
   pubs c' = pubs c /\ last_mid c' = last_mid c /\ mid_lock c' = mid_lock c /\ alloc_log c' = alloc_log c.
 Proof.
   unfold lstep. intros H.
-  destruct (loop c) as [|wl| | |p| | | | |];
+  destruct (loop c) as [|wl| | | |p| | | | | | |];
     repeat match type of H with
            | context [if ?b then _ else _] => destruct b
            | context [match ?x with _ => _ end] => destruct x
@@ -79,7 +79,7 @@ Lemma timeout_frame c c' : timeout_step c = Some c' ->
   nconn c' = nconn c.
 Proof.
   unfold timeout_step. intros H.
-  destruct (loop c) as [|[|]| | |p| | | | |]; try discriminate.
+  destruct (loop c) as [|[|]| | | |p| | | | | | |]; try discriminate.
   destruct (0 <? pipe c)%nat eqn:E; [discriminate|].
   inversion H; subst; cbn. apply Nat.ltb_ge in E.
   repeat split; try reflexivity. lia.
@@ -113,4 +113,21 @@ Lemma mid_iter_range0 k m : 0 <= m <= 65535 -> 0 <= mid_iter k m <= 65535.
 Proof.
   revert m; induction k as [|k IH]; intros m Hm; cbn [mid_iter]; [assumption|].
   apply IH. unfold mid_next. destruct (m + 1 =? 65536) eqn:E; lia.
+Qed.
+
+(* _connect_queued is written by reconnect() / _packet_queue(CONNECT) only *)
+Lemma pstep_cq i p c c' : pstep i p c = Some c' -> cq c' = cq c.
+Proof.
+  unfold pstep. intros H.
+  destruct (pc p);
+    repeat match type of H with
+           | context [match ?x with _ => _ end] => destruct x eqn:?
+           end; try discriminate; inversion H; subst; reflexivity.
+Qed.
+
+Lemma timeout_cq c c' : timeout_step c = Some c' -> cq c' = cq c.
+Proof.
+  unfold timeout_step. intros H.
+  destruct (loop c) as [|[|]| | | |p| | | | | | |]; try discriminate.
+  destruct (0 <? pipe c)%nat; [discriminate|]. inversion H; reflexivity.
 Qed.
